@@ -90,7 +90,8 @@ class C13(Prop):
         ("lib/python/pyflyby/_log.py", "_PyflybyHandler.HookCtx"),
     ]
     parallel = False
-    quick_cases = 1500
+    BATCH = 320
+    quick_cases = 900
     thorough_cases = 14000
     quick_deadline_s = 70
     thorough_deadline_s = 780
@@ -180,12 +181,13 @@ class C13(Prop):
         return j
 
     def _prefetch(self):
+        # one batch at a time, in planning order, so that the deadline of the framework can cut the run short
         todo = {}
-        for c in self._planned:
+        while self._planned and len(todo) < self.BATCH:
+            c = self._planned.pop(0)
             k = case_key(c)
             if k not in self._cache:
                 todo.setdefault(k, c)
-        self._planned = []
         if not todo:
             return
         keys = list(todo)
@@ -215,7 +217,7 @@ class C13(Prop):
             self.setup("quick", None)
         k = case_key(case)
         if k not in self._cache:
-            self._planned.append(case)
+            self._planned.insert(0, case)
             self._prefetch()
         obs = self._cache[k]
         for side in ("pf", "ref"):
